@@ -7,6 +7,7 @@ import sys
 HERE = os.path.dirname(os.path.abspath(__file__))
 VERIF = os.path.dirname(HERE)
 sys.path.insert(0, HERE)
+sys.path.insert(0, os.path.join(HERE, "shims"))
 sys.path.insert(0, os.environ.get("XSDATA_REPO", "/repo"))
 sys.dont_write_bytecode = True
 
